@@ -343,6 +343,21 @@ class CoqEval:
 
     def run(self, cases: list[str], jobs: int = 16, timeout: int = 900):
         jobs = min(jobs, adaptive_jobs())
+        # make sure every library the case files import is compiled against the current
+        # dependencies (a stale .vo gives "inconsistent assumptions" errors)
+        targets = []
+        for imp in self.imports:
+            for m in re.finditer(r"From\s+(Model|Proofs|Gen|Props)\s+Require\s+(?:Import|Export)\s+([^.]*)\.", imp):
+                d = {"Model": "model", "Proofs": "proofs", "Gen": "gen", "Props": "props"}[m.group(1)]
+                for name in m.group(2).split():
+                    if os.path.exists(os.path.join(COQ, d, name + ".v")):
+                        targets.append("%s/%s.vo" % (d, name))
+        if targets:
+            with BuildLock():
+                ok, log, _ = coq_make(sorted(set(targets)))
+            if not ok:
+                return {"failing": [], "errors": [(0, "building the case-evaluation libraries failed:\n" + log[-2500:])],
+                        "evaluated": 0, "shows": {}}
         tmp = tempfile.mkdtemp(prefix="verif-cases-")
         try:
             files = []
